@@ -220,6 +220,30 @@ func c17ActionCases() []c17Case {
 			}
 		}
 	}
+	// the request-side actions are applied once per request, not once per attempt: every retried
+	// attempt carries the same finalised request as the first one
+	for _, has := range []bool{false, true} {
+		for _, mode := range []string{"add-append", "add-overwrite", "remove"} {
+			for _, first := range []string{upReplyBusy, upClose, upSilent} {
+				extra := map[string]interface{}{}
+				switch mode {
+				case "add-append":
+					extra["request_headers_to_add"] = []interface{}{hv("k1", "new", true)}
+				case "add-overwrite":
+					extra["request_headers_to_add"] = []interface{}{hv("k1", "new", false)}
+				case "remove":
+					extra["request_headers_to_remove"] = []interface{}{"k1"}
+				}
+				sc := hpScenario{Hosts: 2, RouteTimeoutMs: 60000, TryTimeoutMs: 100, RetryOn: true, NumRetries: 2, RouteExtra: extra,
+					Requests: []hpRequest{{Token: "t1", Body: true, Script: []string{first, first, upReply200}, Headers: map[string]string{}}}}
+				if has {
+					sc.Requests[0].Headers["k1"] = "old"
+				}
+				sc.Name = fmt.Sprintf("headers side=request mode=%s present=%v retried-after=%s", mode, has, first)
+				out = append(out, c17Case{Kind: "headers", Sc: sc, WantAttempts: 3, Note: "request|" + mode + "|" + fmt.Sprint(has)})
+			}
+		}
+	}
 	for _, st := range []int{200, 503} {
 		for _, body := range []string{"", "x"} {
 			sc := hpScenario{Hosts: 1, RouteTimeoutMs: 1000, DirectStatus: st, DirectBody: body, Requests: []hpRequest{{Token: "t1", Body: true, Script: []string{upReply200}}}}
@@ -353,9 +377,22 @@ func c17Eval(p *vreport.Part, c c17Case, bound int) {
 			var got string
 			var present bool
 			if side == "request" {
-				if len(upFrames) != 1 {
-					report("headers: request not forwarded exactly once", fmt.Sprint(len(upFrames)))
+				wantN := 1
+				if c.WantAttempts > 0 {
+					wantN = c.WantAttempts
+				}
+				if len(upFrames) != wantN && (wantN == 1 || r.Cost == 0) {
+					report("headers: request not forwarded the expected number of times", fmt.Sprintf("%d attempts, expected %d", len(upFrames), wantN))
 					return
+				}
+				if len(upFrames) == 0 {
+					return
+				}
+				for i, f := range upFrames[1:] {
+					if fmt.Sprint(f.Headers) != fmt.Sprint(upFrames[0].Headers) || f.BodyToken != upFrames[0].BodyToken {
+						report("headers: a retried attempt does not carry the same finalised request as the first attempt", fmt.Sprintf("attempt 1: %v %q, attempt %d: %v %q", upFrames[0].Headers, upFrames[0].BodyToken, i+2, f.Headers, f.BodyToken))
+						return
+					}
 				}
 				got, present = upFrames[0].Headers["k1"]
 			} else {
